@@ -106,4 +106,128 @@ theorem checkGen_sound (window : Nat) (buf : Array UInt8) (stop : Nat) (hs : sto
       | head => exact ⟨h3, h4, h1, h2⟩
       | tail _ h => exact i3 t h
 
+/-! ### from the check to the contract `Sound.gen` -/
+
+/-- the bytes a list of real tokens stands for, given everything decoded before them -/
+def resolveR (h : List UInt8) (toks : List RTok) : List UInt8 :=
+  ((toks.foldl tokStep h.toArray).toList).drop h.length
+
+theorem copyBack_toList_prefix (out : Array UInt8) (d : Nat) : ∀ n, ∃ ext, (copyBack out d n).toList = out.toList ++ ext ∧ ext.length = n := by
+  intro n
+  induction n generalizing out with
+  | zero => exact ⟨[], by simp [copyBack], rfl⟩
+  | succ k ih =>
+    unfold copyBack
+    obtain ⟨ext, h1, h2⟩ := ih (out.push (out.getD (out.size - d) 0))
+    refine ⟨out.getD (out.size - d) 0 :: ext, ?_, by simp [h2]⟩
+    rw [h1, Array.toList_push, List.append_assoc]; rfl
+
+theorem tokStep_prefix (out : Array UInt8) (t : RTok) : ∃ ext, (tokStep out t).toList = out.toList ++ ext := by
+  cases t with
+  | lit b => exact ⟨[b], by simp [tokStep]⟩
+  | lit2 a b => exact ⟨[a, b], by simp [tokStep]⟩
+  | mtch len dist =>
+    obtain ⟨ext, h, _⟩ := copyBack_toList_prefix out dist len
+    exact ⟨ext, h⟩
+
+theorem foldl_tokStep_prefix (toks : List RTok) (out : Array UInt8) : ∃ ext, (toks.foldl tokStep out).toList = out.toList ++ ext := by
+  induction toks generalizing out with
+  | nil => exact ⟨[], by simp⟩
+  | cons t ts ih =>
+    obtain ⟨e1, h1⟩ := tokStep_prefix out t
+    obtain ⟨e2, h2⟩ := ih (tokStep out t)
+    exact ⟨e1 ++ e2, by rw [List.foldl_cons, h2, h1, List.append_assoc]⟩
+
+theorem resolveR_spec (h : List UInt8) (toks : List RTok) :
+    (toks.foldl tokStep h.toArray).toList = h ++ resolveR h toks := by
+  obtain ⟨ext, he⟩ := foldl_tokStep_prefix toks h.toArray
+  unfold resolveR
+  rw [he]
+  simp
+
+theorem resolveR_nil (h : List UInt8) : resolveR h [] = [] := by simp [resolveR]
+
+theorem resolveR_app (h : List UInt8) (a b : List RTok) :
+    resolveR h (a ++ b) = resolveR h a ++ resolveR (h ++ resolveR h a) b := by
+  have h1 := resolveR_spec h a
+  have h2 := resolveR_spec (h ++ resolveR h a) b
+  have h3 : (a ++ b).foldl tokStep h.toArray = b.foldl tokStep (h ++ resolveR h a).toArray := by
+    rw [List.foldl_append]
+    congr 1
+    apply Array.ext'
+    rw [h1]
+  unfold resolveR at *
+  rw [h3]
+  generalize hx : (List.foldl tokStep (h ++ List.drop h.length (List.foldl tokStep h.toArray a).toList).toArray b).toList = x at h2 ⊢
+  rw [h2]
+  simp [List.drop_append]
+
+
+theorem getD_shift (pre : List UInt8) (buf : Array UInt8) (i : Nat) :
+    (pre ++ buf.toList).toArray.getD (pre.length + i) 0 = buf.getD i 0 := by
+  rw [array_getD_toList, array_getD_toList]
+  simp [List.getD, List.getElem?_append_right]
+
+/-- the check is insensitive to bytes in front of the buffer -/
+theorem checkGen_shift (window : Nat) (pre : List UInt8) (buf : Array UInt8) (stop : Nat) :
+    ∀ (toks : List RTok) (pos : Nat), checkGen window buf stop pos toks = true →
+      checkGen window (pre ++ buf.toList).toArray (pre.length + stop) (pre.length + pos) toks = true := by
+  intro toks
+  induction toks with
+  | nil =>
+    intro pos h
+    simp only [checkGen, beq_iff_eq] at h ⊢
+    omega
+  | cons t ts ih =>
+    intro pos h
+    cases t with
+    | lit b =>
+      simp only [checkGen, Bool.and_eq_true, decide_eq_true_eq, beq_iff_eq] at h ⊢
+      obtain ⟨⟨h1, h2⟩, h3⟩ := h
+      refine ⟨⟨by omega, by rw [getD_shift]; exact h2⟩, ?_⟩
+      have := ih (pos + 1) h3
+      rw [← Nat.add_assoc] at this; exact this
+    | lit2 a b =>
+      simp only [checkGen, Bool.and_eq_true, decide_eq_true_eq, beq_iff_eq] at h ⊢
+      obtain ⟨⟨⟨h1, h2⟩, h2'⟩, h3⟩ := h
+      refine ⟨⟨⟨by omega, by rw [getD_shift]; exact h2⟩, ?_⟩, ?_⟩
+      · rw [Nat.add_assoc, getD_shift]; exact h2'
+      · have := ih (pos + 2) h3
+        rw [← Nat.add_assoc] at this; exact this
+    | mtch len dist =>
+      simp only [checkGen, Bool.and_eq_true, decide_eq_true_eq, List.all_eq_true, List.mem_range, beq_iff_eq] at h ⊢
+      obtain ⟨⟨⟨⟨⟨⟨⟨h1, h2⟩, h3⟩, h4⟩, h5⟩, h6⟩, h7⟩, h8⟩ := h
+      refine ⟨⟨⟨⟨⟨⟨⟨h1, h2⟩, h3⟩, h4⟩, by omega⟩, by omega⟩, ?_⟩, ?_⟩
+      · intro i hi
+        have e1 : pre.length + pos + i = pre.length + (pos + i) := by omega
+        have e2 : pre.length + (pos + i) - dist = pre.length + (pos + i - dist) := by omega
+        rw [e1, e2, getD_shift, getD_shift]
+        exact h7 i hi
+      · have := ih (pos + len) h8
+        rw [← Nat.add_assoc] at this; exact this
+
+/-- **the recorded-call check implies the match-finder contract for that call**: with any history `pre` in front
+    of the buffer, the new tokens resolve to exactly the bytes the call consumed -/
+theorem checkGen_gives_gen (window : Nat) (pre buf : List UInt8) (idx nIdx : Nat) (toks : List RTok)
+    (hn : nIdx ≤ buf.length) (hc : checkGen window buf.toArray nIdx idx toks = true) :
+    resolveR (pre ++ buf.take idx) toks = (buf.drop idx).take (nIdx - idx) ∧ idx ≤ nIdx ∧
+    ∀ t ∈ toks, t.inWindow window := by
+  have hs := checkGen_shift window pre buf.toArray nIdx toks idx hc
+  have hsz : pre.length + nIdx ≤ (pre ++ buf.toArray.toList).toArray.size := by simp; omega
+  have hout : (pre ++ buf.take idx).toArray.toList = (pre ++ buf.toArray.toList).toArray.toList.take (pre.length + idx) := by
+    simp [List.take_length_add_append]
+  obtain ⟨g1, g2, g3⟩ := checkGen_sound window (pre ++ buf.toArray.toList).toArray (pre.length + nIdx) hsz toks
+    (pre.length + idx) (pre ++ buf.take idx).toArray hout hs
+  have hle : idx ≤ nIdx := by omega
+  refine ⟨?_, hle, g3⟩
+  have hspec := resolveR_spec (pre ++ buf.take idx) toks
+  rw [g1] at hspec
+  have htk : (pre ++ buf.toArray.toList).toArray.toList.take (pre.length + nIdx) = pre ++ buf.take nIdx := by
+    simp [List.take_length_add_append]
+  have hsplit : List.take nIdx buf = List.take idx buf ++ (buf.drop idx).take (nIdx - idx) := by
+    have e : nIdx = idx + (nIdx - idx) := by omega
+    conv => lhs; rw [e, List.take_add]
+  rw [htk, hsplit, ← List.append_assoc] at hspec
+  exact (List.append_cancel_left hspec).symm
+
 end Fastgo.Writer
